@@ -34,3 +34,63 @@ def QPress(*units, value=None):
 
 def QWeight(*units, value=None):
     return Q(U.Weight, *(units or (Unit.Grain, Unit.Gram)), value=value)
+
+
+# ---------------------------------------------------------------------------------------
+# a complete shot (every quantity built by its real constructor)
+import py_ballisticcalc.trajectory_calc._trajectory_calc as _tc  # noqa: E402
+from py_ballisticcalc.conditions import Atmo, Shot, Wind  # noqa: E402
+from py_ballisticcalc.drag_model import DragModel, DragDataPoint  # noqa: E402
+from py_ballisticcalc.munition import Weapon, Ammo  # noqa: E402
+from py_ballisticcalc.vector import Vector  # noqa: E402
+from pyvc.contract import Built  # noqa: E402
+
+VEC = Rec(Vector, x=Real(), y=Real(), z=Real())
+POINTS = ListOf(Obj(DragDataPoint, Mach=Real(), CD=Real()), minlen=3, frozen=True)
+SMALL_ANGLE = Real(lo=-1.5, hi=1.5)
+
+
+def config_shape(**over):
+    f = dict(max_calc_step_size_feet=Real(lo=0, lo_open=True), chart_resolution=Real(), cZeroFindingAccuracy=Real(lo=0),
+             cMinimumVelocity=Real(), cMaximumDrop=Real(), cMaxIterations=Int(lo=0), cGravityConstant=Real(hi=0, hi_open=True),
+             cMinimumAltitude=Real())
+    f.update(over)
+    return Rec(_tc.Config, **f)
+
+
+def atmo_shape(**over):
+    f = dict(_altitude=QDist(Unit.Foot), _pressure=QPress(Unit.InHg, value=Real(lo=0, lo_open=True)),
+             _temperature=QTemp(Unit.Fahrenheit), _powder_temp=QTemp(Unit.Celsius),
+             _t0=Real(), _p0=Real(lo=0, lo_open=True), _a0=Real(), _mach=Real(lo=0, lo_open=True),
+             _humidity=Real(lo=0, hi=1), _density_ratio=Real(lo=0), _initializing=Const(False))
+    f.update(over)
+    return Obj(Atmo, **f)
+
+
+def dm_shape(**over):
+    f = dict(BC=Real(lo=0, lo_open=True), drag_table=POINTS, length=QDist(Unit.Inch, value=Real(lo=0)),
+             diameter=QDist(Unit.Inch, value=Real(lo=0)), weight=QWeight(Unit.Grain, value=Real(lo=0)))
+    f.update(over)
+    return Obj(DragModel, **f)
+
+
+def ammo_shape(**over):
+    f = dict(dm=dm_shape(), mv=QVel(Unit.FPS, value=Real(lo=0, lo_open=True)), powder_temp=QTemp(Unit.Celsius),
+             temp_modifier=Real(), use_powder_sensitivity=Enum(False, True))
+    f.update(over)
+    return Obj(Ammo, **f)
+
+
+def weapon_shape(**over):
+    f = dict(sight_height=QDist(Unit.Inch), twist=QDist(Unit.Inch), zero_elevation=QAng(Unit.Radian, value=SMALL_ANGLE),
+             sight=Const(None))
+    f.update(over)
+    return Obj(Weapon, **f)
+
+
+def shot_shape(winds=None, **over):
+    f = dict(look_angle=QAng(Unit.Radian, value=SMALL_ANGLE), relative_angle=QAng(Unit.Radian, value=SMALL_ANGLE),
+             cant_angle=QAng(Unit.Radian, value=Real(lo=-3.2, hi=3.2)), weapon=weapon_shape(), ammo=ammo_shape(),
+             atmo=atmo_shape(), _winds=winds if winds is not None else Const(None))
+    f.update(over)
+    return Obj(Shot, **f)
